@@ -494,4 +494,286 @@ class ExcEngine(Engine):
             'tags': tags + ['depth%d' % case['depth']]}
 
 
-ENGINES = [ExcEngine()]
+# ---------------------------------------------------------------------------------------------------------------------
+# classes that SERVE public fields through the attribute protocol
+# ---------------------------------------------------------------------------------------------------------------------
+SERVED_BASES = {'Exception': "('backend unavailable',)", 'ValueError': "('bad value', 3)", 'KeyError': "('k',)",
+                'OSError': "(5, 'io failed')", 'RuntimeError': "()",
+                'ExceptionGroup': "('tasks failed', [ValueError(1), KeyError('k')])"}
+SERVED_HOOKS = ('getattr-dict', 'getattr-slots', 'getattr-mixin', 'getattr-args', 'getattr-table', 'getattribute', 'descriptor')
+FIELD_NAMES = ('status', 'retry_after', 'endpoint', 'code', 'details', 'request_id', 'headers', 'fatal', 'value2')
+FIELD_VALUES = ('503', '1.5', "'/v1/items'", 'None', '[1, 2]', "{'k': ('v', 1)}", 'True', "('a', 'b')", '0', "''", '-7',
+                "b'raw'", 'frozenset([3])')
+
+
+def served_source(case):
+  """python source of the exception class `Served` described by the case, and of the expression constructing it"""
+  base, hook, fields = case['base'], case['hook'], case['fields']
+  names = [n for n, _ in fields]
+  payload = ', '.join('%s=%s' % (n, v) for n, v in fields)
+  base_args = SERVED_BASES[base][1:-1].rstrip(',')
+  group = base == 'ExceptionGroup'
+  L = []
+  body = []
+  bases = base
+  new = ['  def __new__(cls, *args, **payload):', '    return super().__new__(cls, *args)'] if group else []
+  init_payload = ['  def __init__(self, *args, **payload):', '    super().__init__(%s)' % ('' if group else '*args'),
+                  '    self.%s = dict(payload)']
+  unknown = ['    raise AttributeError(%r %% (type(self).__name__, name))' % "'%s' object has no attribute '%s'"]
+  ctor = 'Served(%s)' % ', '.join(x for x in (base_args, payload) if x)
+  if hook == 'getattr-dict':
+    body = new + [l % '_payload' if '%s' in l and 'self.' in l else l for l in init_payload] + [
+        '  def __getattr__(self, name):', "    if name.startswith('_'):", '      raise AttributeError(name)',
+        '    try:', '      return self._payload[name]', '    except KeyError:'] + ['  ' + unknown[0] + ' from None']
+  elif hook == 'getattr-slots':
+    body = ["  __slots__ = ('_fields',)"] + new + [l % '_fields' if '%s' in l and 'self.' in l else l for l in init_payload] + [
+        '  def __getattr__(self, name):', "    fields = object.__getattribute__(self, '_fields')",
+        '    if name in fields:', '      return fields[name]'] + unknown
+  elif hook == 'getattr-mixin':
+    L += ['class Record:', '  """served fields for any class mixing this in"""', '  def __getattr__(self, name):',
+          "    payload = self.__dict__.get('_payload', {})", '    if name in payload:', '      return payload[name]'] + unknown + ['']
+    bases = 'Record, ' + base
+    body = new + [l % '_payload' if '%s' in l and 'self.' in l else l for l in init_payload]
+  elif hook == 'getattr-args':
+    # the fields ARE the constructor arguments, read back out of .args by position
+    body = ['  _NAMES = %r' % (tuple(names),), '  def __getattr__(self, name):', '    if name in self._NAMES:',
+            '      return self.args[self._NAMES.index(name)]'] + unknown
+    ctor = 'Served(%s)' % ', '.join(v for _, v in fields)
+  elif hook == 'getattr-table':
+    body = ['  _TABLE = {%s}' % ', '.join('%r: %s' % (n, v) for n, v in fields), '  def __getattr__(self, name):',
+            '    table = type(self)._TABLE', '    if name in table:', '      return table[name]'] + unknown
+    ctor = 'Served(%s)' % base_args
+  elif hook == 'getattribute':
+    body = new + [l % '_payload' if '%s' in l and 'self.' in l else l for l in init_payload] + [
+        '  def __getattribute__(self, name):', "    if not name.startswith('_'):",
+        "      payload = object.__getattribute__(self, '__dict__').get('_payload', {})",
+        '      if name in payload:', '        return payload[name]', '    return super().__getattribute__(name)']
+  elif hook == 'descriptor':
+    L += ['class Field:', '  """a non-data descriptor reading the instance payload"""', '  def __init__(self, key):', '    self.key = key',
+          '  def __get__(self, obj, owner=None):', '    if obj is None:', '      return self', '    return obj._payload[self.key]', '']
+    body = ['  %s = Field(%r)' % (n, n) for n in names] + new + [l % '_payload' if '%s' in l and 'self.' in l else l for l in init_payload]
+  else:
+    raise ValueError(hook)
+  if group:
+    body += ['  def derive(self, excs):', '    return ExceptionGroup(self.message, excs)']
+  if case.get('dir'):
+    body += ['  def __dir__(self):', '    return sorted(set(super().__dir__()) | %r)' % (set(names),)]
+  if case.get('custom_str'):
+    first = 'self.%s' % names[0] if names else 'None'
+    body += ['  def __str__(self):', "    return 'request failed %%r [%%r]' %% (self.args[:1], %s)" % first]
+  L += ['class Served(%s):' % bases, '  """fields served through the attribute protocol (%s)"""' % hook] + body
+  return '\n'.join(L) + '\n', ctor
+
+
+class ServedEngine(Engine):
+  """exception classes whose public fields are not stored as plain instance attributes but SERVED by the class through
+  Python's attribute protocol (payload / record style errors of HTTP and RPC clients): readable on the original with
+  getattr, so -- property text -- reading the same on what the caller catches.  The field names come from the case (the
+  harness knows what it put in), not from dir().  Implementation only: Model/ExcProxy.v's attribute kinds are the ones a
+  type or an instance dict holds."""
+  name = 'served-attrs'
+  model = False
+  rule = ('served-attrs: a class (bases Exception / ValueError / KeyError / OSError / RuntimeError / ExceptionGroup) serving 0-4 '
+          'fields through __getattr__ (over an instance payload, a __slots__ payload, a mixin, its args, a class table), '
+          '__getattribute__ or non-data descriptors, optionally with __dir__ / a __str__ that reads a served field; raised at '
+          'depth 1-3, directly or in reference evaluation, in a scope or not; same class, traceback, message extended with '
+          'configurable and scope, args and every served field equal')
+
+  def budget(self, tier):
+    return 60 if tier == 'quick' else 1500
+
+  def corpus(self):
+    rpc = [['status', '503'], ['retry_after', '1.5'], ['endpoint', "'/v1/items'"]]
+    cases = []
+    for hook in SERVED_HOOKS:
+      cases.append({'base': 'Exception', 'hook': hook, 'fields': rpc, 'dir': False, 'custom_str': False, 'depth': 1,
+                    'via_ref': False, 'scope': 'train'})
+      cases.append({'base': 'OSError' if hook != 'getattr-args' else 'ValueError', 'hook': hook, 'fields': rpc[:2], 'dir': True,
+                    'custom_str': True, 'depth': 3, 'via_ref': True, 'scope': 'eval'})
+    cases.append({'base': 'ExceptionGroup', 'hook': 'getattr-dict', 'fields': rpc, 'dir': False, 'custom_str': False, 'depth': 2,
+                  'via_ref': False, 'scope': ''})
+    return cases
+
+  def gen(self, rng, tier):
+    base = rng.choice(sorted(SERVED_BASES))
+    # fields read back out of .args: not for groups (args is fixed) nor OSError (which drops the filename out of its args)
+    hooks = [h for h in SERVED_HOOKS if not (base in ('ExceptionGroup', 'OSError') and h == 'getattr-args')]
+    names = rng.sample(FIELD_NAMES, rng.randint(0, 4))
+    return {'base': base, 'hook': rng.choice(hooks), 'fields': [[n, rng.choice(FIELD_VALUES)] for n in names],
+            'dir': rng.random() < 0.3, 'custom_str': rng.random() < 0.3, 'depth': rng.randint(1, 3),
+            'via_ref': rng.random() < 0.5, 'scope': rng.choice(('', '', 'train', 'a/b'))}
+
+  def shrink(self, case):
+    for i in range(len(case['fields'])):
+      yield dict(case, fields=case['fields'][:i] + case['fields'][i + 1:])
+    for k in ('dir', 'custom_str', 'via_ref'):
+      if case[k]:
+        yield dict(case, **{k: False})
+    if case['scope']:
+      yield dict(case, scope='')
+    if case['depth'] > 1:
+      yield dict(case, depth=case['depth'] - 1)
+    if case['base'] != 'Exception' and case['hook'] != 'getattr-args':
+      yield dict(case, base='Exception')
+
+  def impl(self, case):
+    gin = C.fresh_gin()
+    src, ctor = served_source(case)
+    env = {'__name__': 'c17served'}
+    exec(src, env)  # pylint: disable=exec-used
+    cls = env['Served']
+    original = eval(ctor, env)  # pylint: disable=eval-used
+    names = [n for n, _ in case['fields']]
+    # measured on the original through the attribute protocol, before Gin sees it
+    expected = {n: getattr(original, n) for n in names}
+    expected['args'] = original.args
+    for n, v in public_attrs(original).items():
+      expected.setdefault(n, v)
+    text = str(original)
+
+    @gin.configurable
+    def raiser():
+      raise original
+
+    @gin.configurable
+    def level2(a=None):
+      return raiser()
+
+    @gin.configurable
+    def level3(b=None):
+      return level2()
+    scope = case['scope']
+    ref = '@%s%sraiser()' % (scope, '/' if scope else '')
+    if case['via_ref']:
+      gin.parse_config({1: '', 2: 'level2.a = %s' % ref, 3: 'level2.a = %s\nlevel3.b = @level2()' % ref}[case['depth']])
+    fn = {1: raiser, 2: level2, 3: level3}[case['depth']]
+    evaluated = case['via_ref'] and case['depth'] >= 2      # raised while Gin evaluates the (scoped) reference
+    caught = None
+    try:
+      if scope and not evaluated:
+        with gin.config_scope(scope):
+          fn()
+      else:
+        fn()
+    except cls as e:      # the except clause that catches the original
+      caught = e
+    except BaseException as e:  # pylint: disable=broad-except
+      return {'obs': T('ClassLost'), 'nontrivial': False, 'tags': [case['hook']],
+              'fails': [('exception-class-lost', 'Served(%s) [%s] raised, "except Served" does not catch what reaches the caller: %r\n%s'
+                         % (case['base'], case['hook'], e, src))]}
+    if caught is None:
+      return {'obs': T('NotRaised'), 'fails': [('exception-swallowed', src)], 'nontrivial': False, 'tags': []}
+    fails = []
+    if type(caught).__name__ != cls.__name__ or type(caught).__module__ != cls.__module__ or type(caught).__qualname__ != cls.__qualname__:
+      fails.append(('exception-name-changed', '%s.%s' % (type(caught).__module__, type(caught).__qualname__)))
+    tb, frames = caught.__traceback__, []
+    while tb is not None:
+      frames.append(tb.tb_frame.f_code.co_name)
+      tb = tb.tb_next
+    if 'raiser' not in frames:
+      fails.append(('traceback-lost', repr(frames)))
+    got_text = str(caught)
+    if not got_text.startswith(text):
+      fails.append(('message-not-extended', '%r vs %r' % (text, got_text)))
+    else:
+      added = got_text[len(text):]
+      if caught is not original and ("'raiser'" not in added or (scope and "'%s'" % scope not in added)):
+        fails.append(('message-names-no-configurable-or-scope', 'scope %r, added text %r' % (scope, added)))
+    obs_attrs = []
+    for n in sorted(expected):
+      try:
+        got = getattr(caught, n)
+        ok = ExcEngine.same(got, expected[n])
+      except BaseException as e:  # pylint: disable=broad-except
+        got, ok = 'raises %s(%s)' % (type(e).__name__, e), False
+      obs_attrs.append([n, ok])
+      if not ok:
+        fails.append(('served-attribute-differs' if n in names else 'attribute-differs',
+                      '%s: readable on the original (a %s serving its fields by %s) as %r, on what the caller catches: %s\n%s%s'
+                      % (n, case['base'], case['hook'], expected[n], got if isinstance(got, str) else repr(got), src, ctor)))
+    for n in names:
+      if hasattr(caught, n) != hasattr(original, n):
+        fails.append(('served-attribute-differs', 'hasattr(%s) differs' % n))
+    fails.sort(key=lambda f: not f[0].startswith('served'))
+    return {'obs': T('Original') if caught is original else T('Proxy', obs_attrs), 'fails': fails[:4],
+            'nontrivial': bool(names) and case['depth'] >= 2, 'tags': [case['hook'], 'depth%d' % case['depth']] +
+            (['evaluated-ref'] if evaluated else []) + (['scoped'] if scope else [])}
+
+
+class KeywordNamesEngine(Engine):
+  """A TypeError (or any other exception) raised by a configurable that was called with keyword NAMES, scope names or
+  configurable names Gin then mentions in the text it adds (the "Caller supplied values for: [...]" line): names are data,
+  whatever characters they hold -- `{x}`, `{}`, `{0.__class__}`, `%s` -- the caller must receive an exception of the
+  original class whose message begins with the original message.  Implementation only (the model has no message text)."""
+  name = 'keyword-names'
+  model = False
+  NAMES = ['{x}', '{}', '{0}', '{0.__class__}', 'a{b', '}{', '{name}', '{gin_bound_args}', '%s', '%(a)s', 'plain', '{{x}}', '{', '}']
+
+  def budget(self, tier):
+    return 40 if tier == 'quick' else 800
+
+  def corpus(self):
+    return [{'kw': ['{x}'], 'missing': True, 'exc': 'TypeError', 'scope': '', 'bound': False},
+            {'kw': ['{}', 'plain'], 'missing': True, 'exc': 'TypeError', 'scope': 's1/s2', 'bound': True},
+            {'kw': ['{0.__class__}'], 'missing': False, 'exc': 'TypeError', 'scope': '', 'bound': True},
+            {'kw': ['{gin_bound_args}'], 'missing': True, 'exc': 'Unsupported', 'scope': 's1', 'bound': False}]
+
+  def gen(self, rng, tier):
+    return {'kw': rng.sample(self.NAMES, rng.randint(1, 3)), 'missing': rng.random() < 0.7,
+            'exc': rng.choice(['TypeError', 'TypeError', 'Unsupported', 'ValueError', 'KeyError']),
+            'scope': rng.choice(['', 's1', 's1/s2']), 'bound': rng.random() < 0.5}
+
+  def shrink(self, case):
+    for i in range(len(case['kw'])):
+      if len(case['kw']) > 1:
+        yield dict(case, kw=case['kw'][:i] + case['kw'][i + 1:])
+    if case['scope']:
+      yield dict(case, scope='')
+    if case['bound']:
+      yield dict(case, bound=False)
+
+  def impl(self, case):
+    gin = C.fresh_gin()
+    class Unsupported(TypeError):      # a user subclass of TypeError
+      pass
+    exc_cls = {'TypeError': TypeError, 'Unsupported': Unsupported, 'ValueError': ValueError, 'KeyError': KeyError}[case['exc']]
+    raised = []
+
+    def body(a, b=2, **kw):
+      e = exc_cls('original message')
+      raised.append(e)
+      raise e
+    body.__module__ = None
+    probe = gin.configurable('probe', module='c17kw')(body)
+    if case['bound']:
+      gin.bind_parameter('c17kw.probe.b', 5)
+    kwargs = {k: 1 for k in case['kw']}
+    if not case['missing']:
+      kwargs['a'] = 0
+    fails = []
+    caught = None
+    try:
+      with gin.config_scope(case['scope'] or None):
+        probe(**kwargs)
+    except BaseException as e:  # pylint: disable=broad-except
+      caught = e
+    if caught is None:
+      fails.append(('no-exception', 'the call returned'))
+    elif case['missing']:
+      # Python itself refuses the call: a TypeError naming the missing argument
+      if not isinstance(caught, TypeError):
+        fails.append(('exception-class-lost', 'probe(**%r) lacks the positional argument `a`: Python raises TypeError, the caller '
+                      'received %s: %r' % (kwargs, type(caught).__name__, caught)))
+      elif "'a'" not in str(caught):
+        fails.append(('exception-message-lost', 'the TypeError no longer names the missing argument: %r' % (str(caught),)))
+    else:
+      if not isinstance(caught, exc_cls):
+        fails.append(('exception-class-lost', 'the configurable raised %s, the caller received %s: %r (keyword names %r)' %
+                      (exc_cls.__name__, type(caught).__name__, caught, case['kw'])))
+      elif 'original message' not in str(caught) and 'original message' not in repr(getattr(caught, 'args', '')):
+        fails.append(('exception-message-lost', repr(str(caught))))
+    return {'obs': T('Done'), 'fails': fails, 'nontrivial': any('{' in k or '%' in k for k in case['kw']),
+            'tags': ['missing' if case['missing'] else 'raised:' + case['exc']]}
+
+
+ENGINES = [ExcEngine(), ServedEngine(), KeywordNamesEngine()]
